@@ -125,6 +125,19 @@ def run(ctx):
                             "marker `%s` is documented for %s" % (marker, ty), loc,
                             fail="types() maps `%s` to %s but %s's documentation does not name that marker" % (marker, ty, ty))
                 # node kind agreement with the doc wording where it is unambiguous
+        # reverse direction: a marker that origins() knows and that a variant's doc names must have a types() row for every node kind origins() lists it with
+        okinds = {}
+        for k, m, _, _ in orows:
+            okinds.setdefault(m, set()).add(k)
+        trows_set = {(k, m, ty) for k, m, ty, _ in trows}
+        for name in variants:
+            ticks = set(re.findall(r"`([^`]+)`", docs.get(name, "")))
+            for m in sorted(ticks & set(okinds)):
+                for k in sorted(okinds[m]):
+                    ctx.require((k, m, name) in trows_set, "R20.2", "doc-row:%s:%s:%s" % (name, k, m),
+                                "%s `%s` (documented for %s, an origin marker) is reported as %s by types()" % (k, m, name, name), types_fn.loc(types_fn.line),
+                                fail="a directory whose marker is the %s `%s` is an origin but types() does not report %s for it although the documentation of "
+                                     "%s names that marker: the types reported do not correspond to the markers present" % (k, m, name, name))
         for name in variants:
             d = docs.get(name, "")
             if "not detected" in d:
@@ -266,6 +279,13 @@ def run(ctx):
                                     if a2.kind == "call" and a2.data == bi:
                                         okd = True
                     okx = okx and okd
+                # ... and there is no way to return without going through that exit (no early return before / inside the walk)
+                exit_targets = [s_ for _, s_ in exits]
+                early = [r for r in rets if not cfg.must_pass(0, [r], exit_targets)]
+                ctx.require(not early and bool(exits), "R20.4", "no-early-return",
+                            "origins() returns only after the ancestor walk has reached the filesystem root", o.loc(t.line),
+                            fail="origins() can return before walking the ancestors (an early return, e.g. when the start directory is empty or unreadable): "
+                                 "marked ancestors of such a path are not reported")
                 ctx.require(okx and bool(exits), "R20.4", "loop-exit",
                             "the ancestor loop is left only when parent() returns None", o.loc(t.line),
                             fail="the ancestor walk can stop before reaching the filesystem root")
